@@ -1,15 +1,227 @@
-(* C01/Proofs.v -- lemmas and main proofs. *)
+(* C01/Proofs.v -- assembly: the three branches against the declarative reading, column selectors,
+   reader attributes (part bounds, n_samples through C16's chunk bounds, _memmap_flat). *)
 From Coq Require Import ZArith List Lia Bool.
-From PV Require Import Base.PySlice Base.NpSearch C01.Model C01.Spec.
+From PV Require Import Base.PySlice Base.NpSearch C01.Model C01.Spec C01.Proofs1 C01.Proofs2
+  C01.Proofs3 C01.Proofs4.
+From PV Require C16.Model C16.Spec C16.Proofs.
 Import ListNotations.
 Open Scope Z_scope.
+
+(* ---------- mapM / gather against Forall2 ---------- *)
+Lemma Forall2_impl {X Y} (P Q : X -> Y -> Prop) l l' :
+  (forall x y, P x y -> Q x y) -> Forall2 P l l' -> Forall2 Q l l'.
+Proof. intros H F. induction F; constructor; auto. Qed.
+
+Lemma mapM_Forall2 {X Y} (f : X -> option Y) l out :
+  mapM f l = Some out <-> Forall2 (fun x y => f x = Some y) l out.
+Proof.
+  revert out; induction l as [|x r IH]; intros out; cbn [mapM].
+  - split; [intros H; injection H as <-; constructor|intros H; inversion H; reflexivity].
+  - split.
+    + destruct (f x) as [y|] eqn:E; [|discriminate]. destruct (mapM f r) as [ys|]; [|discriminate].
+      intros H; injection H as <-. constructor; [assumption|]. now apply IH.
+    + intros H; inversion H as [|? y ? ys Hy Hr]; subst. rewrite Hy.
+      apply IH in Hr. rewrite Hr. reflexivity.
+Qed.
+
+Lemma pick_iff {X} (M : list X) i r : pick M i = Some r <-> 0 <= i /\ nth_error M (Z.to_nat i) = Some r.
+Proof.
+  unfold pick. destruct (i <? 0) eqn:E; split; try discriminate; try lia.
+  - intros H; split; [lia|assumption].
+  - intros (_ & H); exact H.
+Qed.
+
+Lemma gather_Rows_at {X} (M : list X) l rows : gather M l = Some rows <-> Rows_at M l rows.
+Proof.
+  unfold gather, Rows_at. rewrite mapM_Forall2. split; intros H.
+  - eapply Forall2_impl; [|exact H]; cbv beta. intros i r Hp. now apply pick_iff.
+  - eapply Forall2_impl; [|exact H]; cbv beta. intros i r Hp. now apply pick_iff.
+Qed.
+
+Lemma valid_item_pos n it : 0 <= n -> valid_item n it -> 0 < n.
+Proof.
+  intros Hn. destruct it as [i|start stop step|l]; cbn [valid_item].
+  - lia.
+  - intros (_ & _ & _ & H).
+    pose proof (np_bound_range n 0 start Hn ltac:(lia)). pose proof (np_bound_range n n stop Hn ltac:(lia)). lia.
+  - intros (Hne & Hinc & Hlt). destruct l as [|x r]; [congruence|].
+    cbn [increasing] in Hinc. inversion Hlt; subst. lia.
+Qed.
+
+Section Main.
+Context {A : Type}.
+Notation row := (list A).
+Implicit Types (parts : list (list row)).
+
+(* reader[item] = np.atleast_2d(concatenation[item]) on the whole regime of the statement *)
+Theorem getitem_rows_np parts it :
+  valid_item (zlen (concat parts)) it ->
+  getitem_rows parts it = np_index (concat parts) it.
+Proof.
+  intros Hv. pose proof (valid_item_pos _ _ (zlen_nonneg (concat parts)) Hv) as Hn.
+  destruct it as [i|start stop step|l].
+  - rewrite getitem_int_correct by exact Hv. rewrite np_index_int by exact Hv. reflexivity.
+  - rewrite getitem_slice_correct by assumption. destruct Hv as (Hst & _).
+    rewrite np_index_slice by assumption. reflexivity.
+  - rewrite getitem_list_correct by assumption. rewrite np_index_list; [reflexivity|].
+    destruct Hv as (_ & Hinc & Hlt). apply Forall_forall. intros x Hx.
+    pose proof (increasing_all _ _ Hinc x Hx). rewrite Forall_forall in Hlt. specialize (Hlt x Hx). lia.
+Qed.
+
+Theorem getitem_int_decl parts i :
+  let n := zlen (concat parts) in
+  - n <= i < n ->
+  exists r, Row_at (concat parts) i r /\ getitem_rows parts (IInt i) = Some [r].
+Proof.
+  intros n Hi. rewrite getitem_int_correct by exact Hi. fold n.
+  assert (Em : i mod n = if i <? 0 then i + n else i).
+  { destruct (i <? 0) eqn:E.
+    - replace i with ((i + n) + (-1) * n) at 1 by lia. rewrite Z.mod_add by lia. apply Z.mod_small. lia.
+    - apply Z.mod_small. lia. }
+  destruct (pick_some (concat parts) (i mod n)) as (r & Er).
+  { fold n. apply Z.mod_pos_bound. lia. }
+  exists r. rewrite Er. split; [|reflexivity].
+  apply pick_iff in Er as (_ & Er). unfold Row_at. fold n. rewrite <- Em. exact Er.
+Qed.
+
+Theorem getitem_list_decl parts l :
+  valid_item (zlen (concat parts)) (IList l) ->
+  exists rows, getitem_rows parts (IList l) = Some rows /\ Rows_at (concat parts) l rows.
+Proof.
+  intros Hv. rewrite getitem_list_correct by exact Hv.
+  destruct Hv as (_ & Hinc & Hlt).
+  destruct (gather_some (concat parts) l) as (rows & E & _).
+  { apply Forall_forall. intros x Hx.
+    pose proof (increasing_all _ _ Hinc x Hx). rewrite Forall_forall in Hlt. specialize (Hlt x Hx). lia. }
+  exists rows. split; [assumption|]. now apply gather_Rows_at.
+Qed.
+
+(* reader[item, cols] and reader[item]: rows of the concatenation first, then the columns;
+   exactly reader[:, cols] gives a derived reader (C02) *)
+Theorem getitem_np parts it cols :
+  valid_item (zlen (concat parts)) it ->
+  getitem parts it cols =
+  match cols with
+  | Some cs => if is_whole it then Some (RDerived cs)
+               else option_map RRows (np_getitem (concat parts) it cols)
+  | None => option_map RRows (np_getitem (concat parts) it cols)
+  end.
+Proof.
+  intros Hv. unfold getitem, np_getitem. rewrite getitem_rows_np by assumption.
+  destruct cols as [cs|].
+  - destruct (is_whole it); reflexivity.
+  - destruct (np_index (concat parts) it); reflexivity.
+Qed.
+
+(* arr[:, cols] row by row *)
+Theorem select_cols_decl (cs : colsel) (rows out : list row) :
+  select_cols cs rows = Some out <-> Cols_of cs rows out.
+Proof.
+  unfold select_cols, Cols_of. rewrite mapM_Forall2. split; intros H.
+  - eapply Forall2_impl; [|exact H]; cbv beta. intros r r' Hs. unfold sel_row in Hs.
+    destruct (col_indices (zlen r) cs) as [idx|]; [|discriminate]. cbn [bind] in Hs.
+    exists idx. split; [reflexivity|]. now apply gather_Rows_at.
+  - eapply Forall2_impl; [|exact H]; cbv beta. intros r r' (idx & E & Hr). unfold sel_row. rewrite E.
+    cbn [bind]. now apply gather_Rows_at.
+Qed.
+
+(* column selection commutes with the concatenation of row blocks *)
+Lemma select_cols_concat (cs : colsel) (blocks : list (list row)) :
+  select_cols cs (concat blocks) = option_map (@concat row) (mapM (select_cols cs) blocks).
+Proof.
+  induction blocks as [|b r IH]; cbn [concat mapM]; [reflexivity|].
+  unfold select_cols at 1. rewrite mapM_app. fold (select_cols cs b). fold (select_cols cs (concat r)).
+  rewrite IH. destruct (select_cols cs b); [|reflexivity].
+  destruct (mapM (select_cols cs) r); reflexivity.
+Qed.
+End Main.
+
+(* ---------- the column selectors of the statement ---------- *)
+(* unit-step slice of the channels *)
+Lemma sel_row_slice {A} (r : list A) start stop step : unit_step step ->
+  sel_row (CSlice start stop step) r =
+  Some (slice r (np_bound (zlen r) 0 start) (np_bound (zlen r) (zlen r) stop)).
+Proof. intros H. exact (np_index_slice r start stop step H). Qed.
+
+(* channel index list / permutation with entries in [0, c) *)
+Lemma sel_row_list {A} (r : list A) l : Forall (fun x => 0 <= x < zlen r) l ->
+  sel_row (CList l) r = gather r l.
+Proof. intros H. exact (np_index_list r l H). Qed.
+
+(* [::-1] reverses the channels *)
+Lemma gather_rev {X} (r : list X) :
+  gather r (map (fun k => zlen r - 1 + k * -1) (zrange 0 (length r))) = Some (rev r).
+Proof.
+  induction r as [|x r IH] using rev_ind; [reflexivity|].
+  rewrite app_length, Nat.add_comm. cbn [length Nat.add zrange map].
+  rewrite zlen_app. change (zlen [x]) with 1. unfold gather. cbn [mapM].
+  rewrite pick_app_r by lia. replace (zlen r + 1 - 1 + 0 * -1 - zlen r) with 0 by lia.
+  cbn [pick_cons_0]. change (pick [x] 0) with (Some x).
+  rewrite (zrange_S 0), map_map.
+  rewrite (mapM_ext_in _ (pick r)) with (l := map _ _).
+  2:{ intros i Hi. apply in_map_iff in Hi as (k & <- & Hk). apply zrange_ge in Hk.
+      apply pick_app_l. lia. }
+  rewrite (map_ext _ (fun k => zlen r - 1 + k * -1)) by (intros k; lia).
+  unfold gather in IH. rewrite IH. rewrite rev_app_distr. reflexivity.
+Qed.
+
+Lemma sel_row_rev {A} (r : list A) : sel_row (CSlice None None (Some (-1))) r = Some (rev r).
+Proof.
+  unfold sel_row, col_indices, slice_indices, slice_adjust.
+  cbn [Z.eqb Z.ltb Z.compare Z.opp sl_start sl_len sl_step bind].
+  pose proof (zlen_nonneg r) as Hn.
+  replace (Z.to_nat (if -1 <? zlen r - 1 then (zlen r - 1 - -1 - 1) / 1 + 1 else 0)) with (length r).
+  - apply gather_rev.
+  - destruct (Z.ltb_spec (-1) (zlen r - 1)); [rewrite Z.div_1_r|]; unfold zlen in *; lia.
+Qed.
+
+(* ---------- reader attributes ---------- *)
+Lemma cumsum_increasing acc sizes : (forall x, In x sizes -> 1 <= x) -> increasing acc (cumsum_from acc sizes).
+Proof.
+  revert acc; induction sizes as [|x r IH]; intros acc H; cbn [cumsum_from increasing]; [exact I|].
+  split; [specialize (H x (or_introl eq_refl)); lia|]. apply IH. intros y Hy. apply H. now right.
+Qed.
+
+(* part_bounds: starts at 0, ends at the total, strictly increasing for parts of >= 1 sample *)
+Theorem part_bounds_spec sizes :
+  py_first (part_bounds sizes) = Some 0 /\ last (part_bounds sizes) 0 = zsum sizes /\
+  zlen (part_bounds sizes) = zlen sizes + 1 /\
+  ((forall x, In x sizes -> 1 <= x) -> increasing (-1) (part_bounds sizes)).
+Proof.
+  split; [reflexivity|]. split; [apply part_bounds_last|]. split; [apply part_bounds_length|].
+  intros H. unfold part_bounds. cbn [increasing]. split; [lia|]. now apply cumsum_increasing.
+Qed.
+
+(* n_samples = chunk_bounds[-1] = sum of the part sizes (chunk bounds are C16's) *)
+Theorem n_samples_spec sizes cs : sizes <> [] -> (forall x, In x sizes -> 0 <= x) -> 1 <= cs ->
+  exists b, C16.Model.get_chunk_bounds sizes cs = Some b /\ b <> [] /\ last b 0 = zsum sizes.
+Proof.
+  intros H1 H2 H3. destruct (C16.Proofs.reader_bounds sizes cs H1 H2 H3) as (b & Hb & r & -> & _ & Hl & _).
+  exists (0 :: r). split; [exact Hb|]. split; [discriminate|exact Hl].
+Qed.
+
+(* _memmap_flat: whole rows after the header; trailing bytes short of one row are ignored *)
+Lemma memmap_rows_floor fsize offset isz nch n junk :
+  0 <= n -> 0 < nch -> 0 < isz -> 0 <= junk < nch * isz -> fsize = offset + n * nch * isz + junk ->
+  memmap_rows fsize offset isz nch = Some n.
+Proof.
+  intros Hn Hc Hi Hj ->. unfold memmap_rows.
+  replace (nch <=? 0) with false by lia.
+  replace (offset + n * nch * isz + junk - offset) with (junk + n * (isz * nch)) by lia.
+  rewrite Z.div_add by lia. rewrite Z.div_small by lia. replace (0 + n <? 0) with false by lia.
+  f_equal; lia.
+Qed.
 
 Lemma memmap_rows_exact fsize offset isz nch n :
   0 <= n -> 0 < nch -> 0 < isz -> fsize = offset + n * nch * isz ->
   memmap_rows fsize offset isz nch = Some n.
+Proof. intros Hn Hc Hi H. apply (memmap_rows_floor fsize offset isz nch n 0); nia. Qed.
+
+(* a flat reader over several files: the part sizes are the row counts of the files *)
+Lemma flat_sizes offset isz nch fsizes ns : 0 < nch -> 0 < isz ->
+  Forall2 (fun f n => 0 <= n /\ exists junk, 0 <= junk < nch * isz /\ f = offset + n * nch * isz + junk) fsizes ns ->
+  mapM (fun f => memmap_rows f offset isz nch) fsizes = Some ns.
 Proof.
-  intros Hn Hc Hi ->. unfold memmap_rows.
-  replace (nch <=? 0) with false by lia.
-  replace (offset + n * nch * isz - offset) with (n * (isz * nch)) by lia.
-  rewrite Z.div_mul by lia. replace (n <? 0) with false by lia. reflexivity.
+  intros Hc Hi H. apply mapM_Forall2. eapply Forall2_impl; [|exact H]; cbv beta.
+  intros f n (Hn & junk & Hj & E). now apply (memmap_rows_floor f offset isz nch n junk).
 Qed.
